@@ -322,6 +322,10 @@ def rasteriser(ctx):
                  % d, c.span, key=b.name + '|Q5|source')
     render.opacity_and_mode(ctx, rule_o='Q5', rule_m=None)
     render.no_extra_skips(ctx, rule='Q5')
+    # the tilemap image is the image of its cel drawn by the shared routine, whenever the cel exists - also on a hidden layer (seed
+    # C08-h moved the visibility test into a helper shared with layer_image: Tilemap::image of a hidden tilemap came out blank)
+    render.image_delegation(ctx, rule='Q5', only=('asefile::tilemap::Tilemap::image', 'asefile::cel::Cel::image'))
+    render.layer_image_unconditional(ctx, rule='Q5')
     # helpers
     tb = ctx.anchor(TM + 'TilemapData::tile')
     if tb is not None:
